@@ -934,10 +934,69 @@ def a17_case(col, rng, cidx, jobref):
     col.counters["c17_liveness_under_failure_cases"] += 1
     if res6[0] == "ok":
         col.violation(pid, "await_returned_normally_although_node_failed", dict(value=short(res6[1])), rp)
+    if cidx % 8 == 3:
+        a17_capacity(col, pid, rng, cidx, rp)
     col.hashes.add(S.spec_hash({"s": S.render(sp), "k": K, "l": S.render(sp4)}))
     if cidx % 15 == 0:
         col.sample(dict(source=S.render(sp), setup=[ids[i] for i in sorted(setup)], concurrent_awaits=K, liveness_program=S.render(sp4),
                         handshakes_served=lw.served))
+
+
+def a17_capacity(col, pid, rng, cidx, rp):
+    """(6) "any number of concurrent awaits": more awaits than the event loop's DEFAULT executor has workers, each with one
+    async-thread node that only returns once ALL of them are inside their function.  Executions own their pools, so nothing
+    outside the DAG's own max_concurrency may bound how many awaits make progress together."""
+    import os
+
+    from tawazi import Resource, dag, xn
+
+    default_workers = min(32, (os.cpu_count() or 1) + 4)
+    N = default_workers + rng.randint(3, 8)
+    lock = threading.Lock()
+    entered = []
+    all_in = threading.Event()
+
+    def body(x):
+        with lock:
+            entered.append(x)
+            if len(entered) == N:
+                all_in.set()
+        ok = all_in.wait(15.0)
+        return ("cap", x, ok)
+
+    body.__name__ = body.__qualname__ = "cap_node%d" % cidx
+    node = xn(resource=Resource.async_thread)(body)
+
+    def cap_prog(x):
+        return node(x)
+
+    cap_prog.__name__ = cap_prog.__qualname__ = "cap_prog%d" % cidx
+    d = dag(max_concurrency=1, is_async=True)(cap_prog)
+    B.reset_log()
+
+    async def main():
+        return await asyncio.gather(*[d(i) for i in range(N)])
+
+    res = probes.run_op("capacity_gather", lambda: asyncio.run(main()))
+    col.evaluations += 1
+    col.counters["c17_capacity_cases"] += 1
+    col.counters["c17_capacity_concurrent_awaits"] += N
+    w = dict(concurrent_awaits=N, loop_default_executor_workers=default_workers, entered_together=len(entered))
+    if res[0] != "ok":
+        col.violation(pid, "concurrent_awaits_raised", dict(w, exc=repr(res[1])[:300]), rp)
+        return
+    timed_out = [r for r in res[1] if not r[2]]
+    if sorted(r[1] for r in res[1]) != list(range(N)) or [r[1] for r in res[1]] != list(range(N)):
+        col.violation(pid, "concurrent_await_got_foreign_result", dict(w, values=short(res[1])), rp)
+    elif timed_out:
+        first_wave = N - len(timed_out) if len(timed_out) < N else len(entered)
+        if len(timed_out) == N and len({len(entered)}) == 1 and len(entered) >= N:
+            # everybody entered, but only after the deadline of the first ones: a (very) loaded machine, not a capacity limit
+            col.inconclusive.append("c17 capacity phase: all %d awaits entered, but later than the 15 s barrier deadline" % N)
+        else:
+            col.violation(pid, "concurrent_awaits_limited_by_something_other_than_their_own_max_concurrency", dict(
+                w, awaits_that_waited_in_vain=len(timed_out), note="every await has its own execution with max_concurrency=1; the nodes "
+                "of %d awaits must be able to be inside their functions together" % N, first_wave=first_wave), rp)
 
 
 async def _await(f, args):
